@@ -784,4 +784,37 @@ def requestEntry (arg : Str) (stacks : List (List Decl)) : Except Err Entry :=
       | some (i, v) => .ok (.found false i v)
       | none => .ok .nothing
 
+/-! ## `latest` across package repositories: `distrib.Repositories.findPackage(product, Tag("latest"))`
+
+Every repository answers with the last of its versions sorted by the comparator (`Repository.listPackages` sorts,
+`findPackage` takes `[-1]`); over the repositories (`EUPS_PKGROOT`, in order) the tree with the repair D5c keeps the
+first repository whose latest is strictly later than the candidate — which is `latestAcross` above, the same loop as
+over the stacks (running the loop once per preferred flavor, as the code does, changes nothing: ties keep the
+first).  The pinned code compared the wrong way round and returned at once otherwise: -/
+
+/-- the pinned loop: the candidate is replaced when it is *later* than the next repository's latest, and the next
+repository's latest is returned on the spot when it is not -/
+def latestReposPinnedGo (i : Nat) (latest : Option (Nat × Str × Lexed)) : List (List Str) → Except Err (Option (Nat × Str))
+  | [] => .ok (latest.map fun (j, v, _) => (j, v))
+  | repo :: rest =>
+    match lexPairs repo with
+    | .error e => .error e
+    | .ok ps =>
+      match lastMax none ps with
+      | none => latestReposPinnedGo (i + 1) latest rest
+      | some (v, l) =>
+        match latest with
+        | none => latestReposPinnedGo (i + 1) (some (i, v, l)) rest
+        | some (_, _, lw) =>
+          if cmpSort lw l > 0 then latestReposPinnedGo (i + 1) (some (i, v, l)) rest
+          else .ok (some (i, v))
+
+/-- the loop over the repositories is run once per preferred flavor (`passes` times: every repository answers every
+flavor with its `generic` package), the candidate carried over -/
+def latestReposPinned (passes : Nat) (repos : List (List Str)) : Except Err (Option (Nat × Str)) :=
+  match latestReposPinnedGo 0 none (List.replicate passes repos).flatten with
+  | .error e => .error e
+  | .ok none => .ok none
+  | .ok (some (i, v)) => .ok (some (i % repos.length, v))
+
 end EupsModel.VersionCmp
